@@ -69,10 +69,11 @@ MemberStates == {"implicit", "default", "user_ne", "user_th", "deleted"}
 \* data: has a public non-static member `int m`; virt: "none" | "virtual" (a virtual member function) | "pure";
 \* vdtor: the destructor is virtual (then dt # "implicit"); base: name of one public base or "-" (bases have
 \* all-implicit special members and no base of their own); privbase: the base is private; ovr: overrides the
-\* base's virtual function; dtacc: access of the destructor ("protected" requires dt # "implicit").
+\* base's virtual function; dtacc: access of the destructor ("protected" requires dt # "implicit");
+\* ccnc / canc: the user-provided copy constructor / copy assignment takes a non-const T& (auto_ptr style).
 D0 == [union |-> FALSE, data |-> TRUE, virt |-> "none", vdtor |-> FALSE, final |-> FALSE, base |-> "-",
        privbase |-> FALSE, ovr |-> FALSE, dc |-> "implicit", cc |-> "implicit", mc |-> "implicit",
-       ca |-> "implicit", ma |-> "implicit", dt |-> "implicit", dtacc |-> "public"]
+       ca |-> "implicit", ma |-> "implicit", dt |-> "implicit", dtacc |-> "public", ccnc |-> FALSE, canc |-> FALSE]
 
 ClassDefs == <<
     <<"Triv", D0>>,
@@ -126,7 +127,11 @@ ClassDefs == <<
     <<"AllDef", [D0 EXCEPT !.dc = "default", !.cc = "default", !.mc = "default", !.ca = "default", !.ma = "default", !.dt = "default"]>>,
     <<"AllDel", [D0 EXCEPT !.dc = "default", !.cc = "deleted", !.mc = "deleted", !.ca = "deleted", !.ma = "deleted"]>>,
     <<"EmptyDc", [D0 EXCEPT !.data = FALSE, !.dc = "user_ne"]>>,
-    <<"UnCc", [D0 EXCEPT !.union = TRUE, !.cc = "user_ne", !.dc = "default"]>>
+    <<"UnCc", [D0 EXCEPT !.union = TRUE, !.cc = "user_ne", !.dc = "default"]>>,
+    <<"CcNc", [D0 EXCEPT !.cc = "user_ne", !.ccnc = TRUE, !.dc = "default"]>>,
+    <<"CaNc", [D0 EXCEPT !.ca = "user_ne", !.canc = TRUE]>>,
+    <<"NcBoth", [D0 EXCEPT !.cc = "user_th", !.ccnc = TRUE, !.ca = "user_th", !.canc = TRUE, !.dc = "default",
+                           !.mc = "user_ne", !.ma = "user_ne"]>>
 >>
 ClassNames == {ClassDefs[i][1] : i \in 1..Len(ClassDefs)}
 ClassFacts == [n \in ClassNames |-> ClassDefs[CHOOSE i \in 1..Len(ClassDefs) : ClassDefs[i][1] = n][2]]
@@ -142,9 +147,11 @@ DescOK(d) ==
                         /\ LET b == ClassFacts[d.base] IN
                            /\ b.base = "-" /\ ~b.union /\ ~b.final /\ b.dtacc = "public"
                            /\ b.dc = "implicit" /\ b.cc = "implicit" /\ b.mc = "implicit"
-                           /\ b.ca = "implicit" /\ b.ma = "implicit" /\ b.dt \in {"implicit", "default"})
+                           /\ b.ca = "implicit" /\ b.ma = "implicit" /\ b.dt \in {"implicit", "default"}
+                           /\ ~b.ccnc /\ ~b.canc)
     /\ (d.ovr => d.base # "-" /\ ClassFacts[d.base].virt # "none")
     /\ (d.privbase => d.base # "-")
+    /\ (d.ccnc => d.cc \in {"user_ne", "user_th"}) /\ (d.canc => d.ca \in {"user_ne", "user_th"})
 ClassTableOK == \A n \in ClassNames : DescOK(ClassFacts[n])
 
 \* ---------------------------------------------------------------------------------------------
@@ -230,8 +237,15 @@ Dtor(n) == StateKind(ClassFacts[n].dt, DtImplKind(n))
 DtorUsable(n) == Dtor(n) # "deleted" /\ ClassFacts[n].dtacc = "public"
 \* overload resolution between T(const T&) and T(T&&) for an argument of the class type ([over.match], [over.ics.rank]):
 \* rvalue non-const -> the move ctor if declared (even if deleted), otherwise the copy ctor
-CtorFor(n, rvalue, const) == IF rvalue /\ ~const /\ MoveCtor(n) # "none" THEN MoveCtor(n) ELSE CopyCtor(n)
-AsgFor(n, rvalue, const) == IF rvalue /\ ~const /\ MoveAsg(n) # "none" THEN MoveAsg(n) ELSE CopyAsg(n)
+\* a copy operation taking T& is viable only for a non-const lvalue
+CtorFor(n, rvalue, const) ==
+    IF rvalue /\ ~const /\ MoveCtor(n) # "none" THEN MoveCtor(n)
+    ELSE IF ClassFacts[n].ccnc /\ (rvalue \/ const) THEN "none"
+    ELSE CopyCtor(n)
+AsgFor(n, rvalue, const) ==
+    IF rvalue /\ ~const /\ MoveAsg(n) # "none" THEN MoveAsg(n)
+    ELSE IF ClassFacts[n].canc /\ (rvalue \/ const) THEN "none"
+    ELSE CopyAsg(n)
 Usable(kd) == kd \in {"trivial", "ne", "th"}
 Yes(kd) == kd # "no"
 Nothrow(kd) == kd \in {"trivial", "ne"}
@@ -431,7 +445,7 @@ ConvPre(f, t) ==
     LET s0 == ArgType(f) s == SrcDecayed(s0) IN
     \/ IsVoidT(f) \/ IsVoidT(t)
     \/ IsFnT(t) \/ t.k = "arr"
-    \/ Abominable(f) \* declval<F>() is ill-formed?  no: add_rvalue_reference leaves it; the call expression is ill-formed -> false
+    \/ Abominable(f)          \* add_rvalue_reference leaves F alone and "F declval()" cannot be formed: not convertible
     \/ /\ IsRef(t) /\ RefBindPre(t, f) /\ s0.k # "fn" /\ s0.k # "arr"
     \/ /\ IsRef(t) /\ s0.k = "fn" /\ t.t = s0
     \/ /\ ~IsRef(t) /\ IsScalarT(t) /\ IsScalarT(s)
